@@ -1,5 +1,5 @@
-"""Second round of seeded changes: /tmp/seed2_<id>/{patchA.diff,demoA.py,notesA.txt}, worktree /tmp/wt2_<id>;
-recorded as /verif/seeded/<id>-R2."""
+"""Later rounds of seeded changes: /tmp/seed<round>_<id>/{patchA.diff,demoA.py,notesA.txt}, worktree /tmp/wt2_<id>;
+recorded as /verif/seeded/<id>-R<round> (SEED_ROUND=2 by default)."""
 import json
 import os
 import shutil
@@ -11,8 +11,11 @@ import seedtest  # noqa: E402
 VERIF = seedtest.VERIF
 
 
+ROUND = os.environ.get("SEED_ROUND", "2")
+
+
 def record(pid, props):
-    src, wt = "/tmp/seed2_%s" % pid, "/tmp/wt2_%s" % pid
+    src, wt = "/tmp/seed%s_%s" % (ROUND, pid), "/tmp/wt2_%s" % pid
     patch, demo = src + "/patchA.diff", src + "/demoA.py"
     if not (os.path.exists(patch) and os.path.exists(demo)):
         print(pid, "NOT DELIVERED")
@@ -23,11 +26,11 @@ def record(pid, props):
         print("NOT CONFIRMED", pid, conf)
         return
     det = seedtest.detect(patch, props)
-    d = os.path.join(VERIF, "seeded", "%s-R2" % pid)
+    d = os.path.join(VERIF, "seeded", "%s-R%s" % (pid, ROUND))
     os.makedirs(d, exist_ok=True)
     shutil.copy(patch, os.path.join(d, "patch.diff"))
     shutil.copy(demo, os.path.join(d, "demo.py"))
-    meta = {"property": pid, "variant": "R2 (second round: written after the checks had been strengthened on the first round; "
+    meta = {"property": pid, "variant": "R" + ROUND + " (later round: written after the checks had been strengthened on the first round; "
                                         "the author was told which changes had been tried and asked for a different site and mechanism)",
             "written_by": "independent sub-agent given only the property text and a scratch worktree",
             "needs_to_manifest": notes.strip(),
@@ -37,7 +40,7 @@ def record(pid, props):
             "detected_by": [k for k, v in det.items() if v["rc"] != 0],
             "how_checks_were_run": "git -C /repo apply patch.diff; ./check <id> --quick; git -C /repo checkout -- ."}
     json.dump(meta, open(os.path.join(d, "meta.json"), "w"), indent=1)
-    print(pid, "R2 detected_by", meta["detected_by"], [v["summary"][:1] for v in det.values()][0][:1])
+    print(pid, "R" + ROUND, "detected_by", meta["detected_by"], [v["summary"][:1] for v in det.values()][0][:1])
 
 
 if __name__ == "__main__":
